@@ -253,6 +253,54 @@ def concrete_selection(term, D, extra_env, expect_fn, trials):
     return None
 
 
+def vectors_witness(term, snap, i, N):
+    """Bind the minimum-image displacement vectors (the remove_pbc call inside the term) of particle 0 to concrete vectors of an
+    inhomogeneous frame - a dense cluster far from the centre particle, a few particles around it - and evaluate the extracted
+    selection.  Returns a description of the first frame on which the result is not the N nearest in order, else None."""
+    import numpy as np
+    from ..concrete import ev as cev
+    rp = [x for x in walk(term) if x[0] == "call" and x[1] == "PyMatterSim.utils.pbc.remove_pbc"]
+    if not rp:
+        return None
+    R_t = max(rp, key=lambda x: len(show(x)))
+    rng = np.random.default_rng(5)
+    for dim in (3, 2):
+        L = 20.0
+        n = 60
+        r0 = 2.5
+        while r0 < 9.7:
+            r0 *= 1.04
+            for nv in (2, 3, 5):
+                # particle 0 in a dilute region: nv - 1 close particles, one particle just beyond distance r0 along the first axis, three
+                # particles near the corner of the cube of half-width r0 (farther away, but with every component below r0), the rest
+                # of the frame in a dense cluster in the far corner of the box
+                near = rng.uniform(-0.3, 0.3, (nv - 1, dim)) * r0
+                face = np.zeros((1, dim)); face[0, 0] = 1.03 * r0
+                corners = 0.97 * r0 * np.array([[1.0] * dim, [-1.0] * dim, [1.0] + [-1.0] * (dim - 1)])
+                cluster = rng.uniform(9.6, 10.0, (n - 1 - (nv - 1) - 1 - 3, dim))
+                V = np.vstack([np.zeros((1, dim)), near, face, corners, cluster])
+                env = {R_t: V, N: nv, i: 0, ("attr", snap, "nparticle"): n, ("attr", snap, "hmatrix"): np.eye(dim) * L, ("attr", snap, "boxlength"): np.ones(dim) * L,
+                       ("sym", "ppp"): np.ones(dim, dtype=int)}
+                try:
+                    got = [int(x) for x in np.asarray(cev(term, env)).ravel().tolist()]
+                except Exception:  # noqa
+                    return None
+                d = np.linalg.norm(V, axis=1)
+                order = [int(j) for j in np.argsort(d, kind="stable")]
+                want_d = [round(float(d[j]), 9) for j in order[1:nv + 1]]
+                # ids may be written 0- or 1-based: a witness only if the list is wrong under both readings
+                wrong = 0
+                for base in (0, 1):
+                    idx = [g - base for g in got]
+                    if len(idx) != nv or any(not (0 <= k < n) for k in idx) or [round(float(d[k]), 9) for k in idx] != want_d:
+                        wrong += 1
+                if wrong == 2:
+                    return (f"{dim}D frame of {n} particles in a box of length {L}: particle 0 with {nv - 1} close neighbours, one particle at distance {1.03 * r0:.3f} along x, "
+                            f"three at distance {0.97 * r0 * dim ** 0.5:.3f} with every component {0.97 * r0:.3f}, a dense cluster elsewhere; N={nv}: the written list is {got}, "
+                            f"the {nv} closest other particles are {order[1:nv + 1]} (0-based) at distances {want_d}")
+    return None
+
+
 # ====================================================================== writers
 def file_writes(it, handle):
     return [e for e in it.events if e.kind == "call" and e.data["call"][1] == ".write" and e.data["call"][2] and e.data["call"][2][0] == handle]
@@ -390,7 +438,16 @@ def check_nnearests(run, pkg):
     row, col = ev.data["target"][2][1]
     val = ev.data["value"]
     ops = []
-    decode(val, ops)
+    try:
+        decode(val, ops)
+    except AnalysisError as ex_:
+        # a selection outside the idiom table (candidate pre-filters, fall-backs ...): the extracted term is evaluated on concrete
+        # inhomogeneous frames with the displacement vectors bound - a list that is not the N closest particles in order of distance
+        # is a witness; agreement on all frames decides nothing
+        wit = vectors_witness(val, snap, i, N)
+        run.ob("R-SELECTK", fq, "nearest:by-evaluation", False if wit else None, "the written list is the N closest other particles in order of increasing minimum-image distance",
+               str(ex_)[:120], witness=wit, loc=loc, sound=True)
+        return
     # distance array = the operand of the first op
     D = ops[0][1] if ops[0][0] in ("argsort", "argpartition") else None
     if D is None:
